@@ -1,1 +1,3 @@
 pub mod join;
+pub mod watermark;
+pub mod window;
